@@ -65,12 +65,19 @@ func c17Type(rng *rand.Rand, id int) (reflect.Type, []int) {
 				}
 			}
 		}
-		switch rng.Intn(5) {
+		switch rng.Intn(7) {
 		case 0:
 			rule = "required|m_r," + rule
 		case 1:
 			if ft.Kind() == reflect.String {
 				rule = rule + ",le=2|m_le"
+			}
+		case 2:
+			// an ordinary rule in front of the group rule: skipped on an empty value, the group rule behind it is not
+			if ft.Kind() == reflect.String {
+				rule = []string{"phone|m_ph,", "to=1~99|m_to,", "email|m_em,int|m_int,"}[rng.Intn(3)] + rule
+			} else if groupable(ft) && ft.Kind() != reflect.Bool {
+				rule = "le=1000000|m_le," + rule
 			}
 		}
 		fields = append(fields, reflect.StructField{Name: fmt.Sprintf("G%d", f), Type: ft, Tag: reflect.StructTag(`valid:"` + rule + `"`)})
